@@ -75,8 +75,14 @@ def val_program(tape):
     lines = []
     n = t.intrange(1, 6, "val.n")
     for i in range(n):
-        k = t.draw(12, "val.kind")
-        if k == 0:
+        k = t.draw(14, "val.kind")
+        if k >= 12:
+            # a range whose end point is itself random and stored nowhere else in the encoding
+            # (dependencies of a primitive distribution are not encoded)
+            e = t.choice(["DiscreteRange(1, DiscreteRange(3, 6))", "DiscreteRange(Range(0, 3), 10)",
+                          "Uniform(7, DiscreteRange(DiscreteRange(0, 2), 5))", "Range(Range(0, 1), Range(2, 3))",
+                          "DiscreteRange(Uniform(251, 32766), 32770)"], "val.nested_bound")
+        elif k == 0:
             a = t.choice(INT_EDGES, "int.a")
             b = t.choice(INT_EDGES, "int.b")
             c = t.choice(INT_EDGES, "int.c")
@@ -268,8 +274,26 @@ def scene_part(tape, stats, violations, digest):
     src2 = src + "param zz_extra = 1\n"
     sc2 = scenic.scenarioFromString(src2)
     # (the value of an overridden parameter is part of the options, also when it is falsy)
-    ovr = tape.choice([1, 0, 0.0, False, "", 2], "foreign.param.value")
+    ovr = tape.choice([1, 0, 0.0, False, "", 2, 1234568, 2.5000004, 1000000.75], "foreign.param.value")
     sc3 = scenic.scenarioFromString(src, params={"zz_override": ovr})
+    # two compilations whose overridden value differs only slightly are different options too
+    near = {1234568: 1234567, 2.5000004: 2.5000001, 1000000.75: 1000000.25}.get(ovr)
+    if near is not None:
+        sc4 = scenic.scenarioFromString(src, params={"zz_override": near})
+        random.seed(seed)
+        numpy.random.seed(seed)
+        try:
+            scene4, _ = sc4.generate(maxIterations=20, verbosity=0)
+            data4 = sc4.sceneToBytes(scene4)
+        except Exception:  # noqa: BLE001 - sampling is not under test here
+            data4 = None
+        if data4 is not None:
+            kind, res = decode(sc3, data4)
+            stats["foreign:near-option-value:" + kind] = stats.get("foreign:near-option-value:" + kind, 0) + 1
+            if kind != "ser":
+                violations.append({"clause": "foreign-data-not-refused", "detail": {
+                    "program": src, "which": f"override {near!r} decoded under override {ovr!r}",
+                    "result": [kind, str(res)[:200]]}})
     for name, other in (("other-program", sc2), ("other-options", sc3)):
         kind, res = decode(other, data)
         stats["foreign:" + name + ":" + kind] = stats.get("foreign:" + name + ":" + kind, 0) + 1
